@@ -313,7 +313,9 @@ async fn run_async(scn: &Scn, blobs: &mut HashMap<Vec<u8>, u32>, qs: &[Pfx]) -> 
                                         let mut out = keepalive();
                                         if eager.contains(&opi) && !qs.is_empty() {
                                             let u = Upd { attr: 900 + opi as u32, ann: vec![Nlri { pfx: qs[0], safi: Safi::U }], wd: vec![], mp4: false, corrupt: 0 };
-                                            if let Ok((pdu, pas)) = encode_update(&u) { blobs.insert(pas, u.attr); out.extend_from_slice(&pdu); }
+                                            // six times the same UPDATE (a peer may repeat itself): the longer the unit goes on
+                                            // reading, the more of them it sees
+                                            if let Ok((pdu, pas)) = encode_update(&u) { blobs.insert(pas, u.attr); for _ in 0..6 { out.extend_from_slice(&pdu); } }
                                         }
                                         let _ = s.write_all(&out).await;
                                     }
@@ -576,6 +578,14 @@ fn run_scn(scn: &Scn, qs: &[Pfx]) -> Outcome {
         if opi < scn.ops.len() { per_op_snap.push((opi, snapshot(&rib, qs))); }
     }
     let fin = snapshot(&rib, qs);
+    // a route only a turned-away connection has sent (attribute marker 900 + op index) is in the RIB: independent of
+    // timing on a tree where a rejected session is not read any further, so never discarded as machine load
+    let eager = eager_conns(scn);
+    let ghost = |snap: &Snap| snap.iter().flatten().find(|r| r.2.parse::<u32>().map(|a| a >= 900 && eager.contains(&((a - 900) as usize))).unwrap_or(false)).cloned();
+    if let Some(r) = per_op_snap.iter().find_map(|(_, s)| ghost(s)).or_else(|| ghost(&fin)) {
+        let rejected_as_told = eager.iter().all(|opi| raw.toks.get(*opi).map(|t| t.starts_with("rejected")).unwrap_or(false));
+        if rejected_as_told { fails.push(format!("lifecycle:rejected-session-routes-in-rib a connection that was turned away left {}.{}.{}", r.0, r.1, r.2)); }
+    }
 
     // ---- C07 / C02: every ended session was cleaned up (withdrawn, gone from live_sessions)
     let mut uncleaned: Vec<(usize, &'static str)> = vec![];
@@ -713,6 +723,12 @@ fn witnesses(pool: &[Pfx]) -> Vec<Scn> {
         // a second connection of a live peer; a wrong AS; an unknown address
         Scn { cfg: vec![e(Key::Exact(p1), Asns::One(65001), 0)],
               ops: vec![Op::Conn(p1, 65001), Op::Upd(0, u(4, vec![2], vec![])), Op::Conn(p1, 65001), Op::Conn(p1, 65002), Op::Conn(p2, 65001), Op::Upd(0, u(5, vec![3], vec![2])), Op::Garbage(0, 1)] },
+        // a live peer whose other end keeps trying: thirty further connections, each turned away, each sending its table
+        // behind the KEEPALIVE without waiting for the verdict; then the live session ends
+        Scn { cfg: vec![e(Key::Exact(p1), Asns::One(65001), 0)],
+              ops: { let mut o = vec![Op::Conn(p1, 65001), Op::Upd(0, u(9, vec![1], vec![]))]; for _ in 0..30 { o.push(Op::Conn(p1, 65001)); } o.push(Op::Upd(0, u(10, vec![2], vec![]))); o.push(Op::Fin(0)); o } },
+        Scn { cfg: vec![e(Key::Prefix(24, p1 >> 8), Asns::Many(vec![]), 0)],
+              ops: { let mut o = vec![Op::Conn(p1, 65001), Op::Conn(p2, 65002), Op::Upd(1, u(11, vec![0], vec![]))]; for k in 0..30 { o.push(Op::Conn(if k % 2 == 0 { p2 } else { p1 }, if k % 2 == 0 { 65002 } else { 65001 })); } o.push(Op::Rst(1)); o.push(Op::Upd(0, u(12, vec![0], vec![]))); o } },
         // hold-timer expiry, then the peer returns
         Scn { cfg: vec![e(Key::Exact(p1), Asns::One(65001), 3)],
               ops: vec![Op::Conn(p1, 65001), Op::Upd(0, u(6, vec![0], vec![])), Op::Hold(0), Op::Conn(p1, 65001)] },
@@ -746,7 +762,17 @@ fn main() {
         return;
     }
     // witnesses first (the hold-timer one takes ~3.5 s; run them on their own threads while generating)
-    let ws = witnesses(&pool);
+    let mut ws = witnesses(&pool);
+    // more of the "other end keeps trying" scenario (what a turned-away connection sends reaches nobody): a window
+    // a few scheduler decisions wide in the session task is only met if many connections try it
+    for j in 0..(if args.thorough { 24u32 } else { 8 }) {
+        let a = a4(1, 0, 1 + (j % 3) as u8);
+        let nl = |i: usize| Nlri { pfx: pool[i % pool.len()], safi: Safi::U };
+        let mut o = vec![Op::Conn(a, 65001), Op::Upd(0, Upd { attr: 20 + j, ann: vec![nl(j as usize)], wd: vec![], mp4: false, corrupt: 0 })];
+        for _ in 0..(20 + j as usize) { o.push(Op::Conn(a, 65001)); }
+        o.push(Op::Fin(0));
+        ws.push(Scn { cfg: vec![Entry { key: Key::Prefix(24, a >> 8), asns: Asns::One(65001), hold: 0 }], ops: o });
+    }
     let wh: Vec<_> = ws.into_iter().map(|s| { let p = pool.clone(); std::thread::spawn(move || run_scn(&s, &p)) }).collect();
     let budget = if args.thorough { Duration::from_secs(150) } else { Duration::from_secs(11) };
     let nthreads = 8usize;
